@@ -13,9 +13,10 @@
 -/
 import Batchie.Lemmas.Scores
 import Batchie.Lemmas.ScreenWF
+import Batchie.Lemmas.ScorePipeline
 
 namespace Batchie.Props.C06
-open Batchie.Scores Batchie.Screen Batchie.Proto Batchie.Lemmas.Scores
+open Batchie.Scores Batchie.Screen Batchie.Proto Batchie.Lemmas.Scores Batchie.ScorePipeline Batchie.Lemmas.ScorePipeline
 
 /-- `np.array_split`: the sections concatenate to the input, there are exactly `n` of them, and section `i`
     has `len / n` elements plus one if `i < len % n` (so sizes differ by at most one and, when `n > len`,
@@ -487,6 +488,111 @@ theorem C06_cli_pipeline (f : Screen.File) (s : Screen) (hs : Screen.load f = .o
   · cases r with
     | none => exact Or.inl ⟨rfl, hnone.mp hr⟩
     | some p => exact Or.inr ⟨p, rfl, C06_selection_sound_any_holder H hHw s policy hpol batch p hr⟩
+
+/-! ### the DBAL scorer and the composed pipeline (`Model/ScorePipeline.lean`) -/
+
+section
+set_option linter.unusedSectionVars false
+variable {α : Type} [Add α] [Sub α] [Mul α] [Div α] [Neg α] [Zero α] [One α] [OfNat α 0] [OfNat α 1] [OfScientific α]
+  [LT α] [DecidableLT α] [Max α] [Predict.ExpLog α] [Dbal.ExpLog α]
+
+/-- `GaussianDBALScorer` is total, for every number type: (1) the scorer model of C05 (`Dbal.scorerScore`: sub-groups of `max_chunk`
+    plates, one kernel call per group) returns exactly the keys it was given, in order, whatever the grouping, triples and values;
+    (2) so does the scorer of the composed pipeline on the plates `score_chunk` hands it, whenever it answers;
+    (3) its count check ("Expected {} plates to be scored") never fires for `max_chunk ≥ 1`: with the predictions of every plate
+        and at least three samples it answers with `Dbal.scorerScore`'s value for every plate — the definition C05's theorems are about;
+    (4) `score_chunk` with this scorer is `Batchie.Scores.scoreChunk` with `dbalScorer` plugged in, and the holder lists the plates of
+        the chunk once each, in order, without a zero-filled tail. -/
+theorem C06_dbal_scorer_total (num : Num α) (thetas : List (Predict.Theta α)) (D : Nat → Nat → α) (maxChunk : Nat) (hmc : 0 < maxChunk)
+    (tripless : Nat → List Dbal.Triple) (s : Screen) :
+    (∀ (n : Nat) (plates : List (Nat × Dbal.Plate α)),
+        (Dbal.scorerScore n D maxChunk tripless plates).map Prod.fst = plates.map Prod.fst)
+    ∧ (∀ inp out, dbalScore num thetas D maxChunk tripless s inp = .ok out → out.map Prod.fst = inp.map Prod.fst)
+    ∧ (∀ inp ps, inp.isEmpty = false → inp.mapM (fun e => plateOfView num thetas s e.2) = .ok ps →
+        UnrankCallsite.comb3 thetas.length ≠ 0 →
+        dbalRaw num thetas D maxChunk tripless s inp
+          = .ok ((inp.map Prod.fst).zip ((Dbal.scorerScore thetas.length D maxChunk tripless ((List.range ps.length).zip ps)).map Prod.snd)))
+    ∧ (∀ batch n idx raw h, scoreChunkDbal num thetas D maxChunk tripless s batch n idx = .ok (raw, h) →
+        scoreChunk s 0 batch n idx (dbalScorer num thetas D maxChunk tripless s) = .ok h
+        ∧ ∃ inp, scoreInputs s 0 batch n idx = .ok inp ∧ h.plateIds = inp.map Prod.fst ∧ raw.map Prod.fst = inp.map Prod.fst
+            ∧ h.cur = inp.length ∧ h.size = inp.length ∧ HolderWF h) :=
+  ⟨fun n plates => scorerScore_keys n D maxChunk hmc tripless plates,
+   fun inp out h => dbalScore_keys num thetas D maxChunk tripless s inp out h,
+   fun inp ps hne hps hc => dbalRaw_ok_of num thetas D maxChunk hmc tripless s inp hne ps hps hc,
+   fun batch n idx raw h hr => scoreChunkDbal_spec num thetas D maxChunk tripless s batch n idx raw h hr⟩
+
+/-- The CONCRETE pipeline (`ScorePipeline.run`: predictions → MSE distance chunks → dense matrix → every score chunk through the DBAL
+    scorer → holders saved, loaded, combined → `select_next_plate`), for every number type, every screen, samples, chunk counts,
+    batch, draws and filtering policy: whenever it answers, the combined holder lists exactly the candidates (each once, in order), nothing
+    is selected iff nothing is allowed, and a selected plate is unobserved, outside the batch, allowed and of minimal score. -/
+theorem C06_dbal_pipeline_correct (num : Num α) (s : Screen) (thetas : List (Predict.Theta α)) (kDist kScore : Nat) (hk : 1 ≤ kScore)
+    (batch : List Int) (maxChunk : Nat) (draws : Nat → Nat → List Nat) (policy : Option Policy) (hpol : PolicyFilters policy)
+    (res : Result α) (hrun : run num s thetas kDist kScore batch maxChunk draws policy = .ok res) :
+    res.combined.entries.map Prod.fst = candidates s batch
+    ∧ (res.selected = none ↔ eligible s policy batch = [])
+    ∧ ∀ p, res.selected = some p →
+        p ∈ s.pids ∧ plateObserved s p = false ∧ p ∉ batch ∧ p ∈ eligible s policy batch
+        ∧ ∃ sp, (p, sp) ∈ res.combined.entries ∧
+            ∀ q sq, (q, sq) ∈ res.combined.entries → q ∈ eligible s policy batch → sq.lt sp = false := by
+  unfold run at hrun
+  obtain ⟨cdm, _, hrun⟩ := bind_ok hrun
+  obtain ⟨dense, _, hrun⟩ := bind_ok hrun
+  obtain ⟨chunks, hchunks, hrun⟩ := bind_ok hrun
+  obtain ⟨combined, hcomb, hrun⟩ := bind_ok hrun
+  obtain ⟨selected, hsel, hrun⟩ := bind_ok hrun
+  have := pure_ok hrun
+  subst this
+  simp only
+  obtain ⟨hlen, hget⟩ := mapM_range_ok _ _ _ hchunks
+  simp only [List.length_range] at hlen
+  -- every chunk
+  have hspec : ∀ i (hi : i < chunks.length),
+      chunkPlates s batch kScore i = .ok (chunks[i].2.plateIds) ∧ HolderWF chunks[i].2 := by
+    intro i hi
+    have h1 := hget i (by simpa [hlen] using hi) hi
+    simp only [List.getElem_range] at h1
+    obtain ⟨_, inp, hinp, hids, _, _, _, hwf⟩ := scoreChunkDbal_spec num thetas _ maxChunk _ s batch kScore i chunks[i].1 chunks[i].2 h1
+    exact ⟨by rw [hids]; exact scoreInputs_fst s 0 batch kScore i inp hinp, hwf⟩
+  let holders := chunks.map Prod.snd
+  have hwfL : ∀ o ∈ holders.map (fun h => Holder.load h.save), HolderWF o := by
+    intro o ho
+    obtain ⟨h, hh, rfl⟩ := List.mem_map.mp ho
+    obtain ⟨c, hc, rfl⟩ := List.mem_map.mp hh
+    obtain ⟨i, hi, rfl⟩ := List.getElem_of_mem hc
+    simpa [HolderWF, Holder.load, Holder.save] using (hspec i hi).2
+  have hne : holders.map (fun h => Holder.load h.save) ≠ [] := by
+    intro h0
+    have : chunks.length = 0 := by simpa [holders] using congrArg List.length h0
+    omega
+  obtain ⟨H, hH, hHe, hHw⟩ := concat_entries _ hwfL hne
+  rw [hcomb] at hH; cases hH
+  have hkeys : combined.entries.map Prod.fst = candidates s batch := by
+    rw [hHe, List.map_flatten, List.map_map, List.map_map, List.map_map]
+    rw [← cover s batch kScore (fun i => (chunks.getD i ([], Holder.new 0)).2.plateIds) ?_ (by omega)]
+    · congr 1
+      apply List.ext_getElem
+      · simp [hlen]
+      · intro i h1 h2
+        have hi : i < chunks.length := by simpa using h1
+        have hw := (hspec i hi).2
+        simp only [List.getElem_map, List.getElem_range, Function.comp_apply, List.getD_eq_getElem?_getD,
+          List.getElem?_eq_getElem hi, Option.getD_some]
+        simp only [Holder.entries, Holder.load, Holder.save]
+        exact List.map_fst_zip (by rw [hw]; exact Nat.le_refl _)
+    · intro i hi
+      have hi' : i < chunks.length := by omega
+      simp only [List.getD_eq_getElem?_getD, List.getElem?_eq_getElem hi', Option.getD_some]
+      exact (hspec i hi').1
+  have hcov : ∀ x, x ∈ eligible s policy batch → x ∈ combined.entries.map Prod.fst := by
+    intro x hx; rw [hkeys]; exact eligible_sub s policy hpol batch x hx
+  obtain ⟨_, hnone⟩ := C06_none_iff_any_holder combined hHw s policy hpol batch hcov
+  rw [hsel] at hnone
+  refine ⟨hkeys, ⟨fun h => hnone.mp (by rw [h]), fun h => by have := hnone.mpr h; exact Except.ok.inj this⟩, ?_⟩
+  intro p hp
+  subst hp
+  exact C06_selection_sound_any_holder combined hHw s policy hpol batch p hsel
+
+end
 
 /-! ### the hypotheses are satisfiable (non-vacuity) -/
 
